@@ -112,6 +112,9 @@ def table(T):
             A, Bo = byname[fa], byname[fb]
             if A['kind'] != 'num' or Bo['kind'] != 'num' or fa == fb:
                 continue
+            if Bo['inplace'] and fa != 'clone':
+                continue        # an in-place operation on a derived tensor may meet a stride-0 physical tensor (torch refuses such writes): outside the claim
+
             mind = max(A.get('mindim', 0), Bo.get('mindim', 0) + drops.get(fa, 0))
             if fa == 'flatten':
                 mind = max(mind, 1)
